@@ -23,4 +23,7 @@ pub open spec fn suffix_of(new_p: Seq<Option<u8>>, old_p: Seq<Option<u8>>) -> bo
 }
 pub open spec fn consumed(old_p: Seq<Option<u8>>, new_p: Seq<Option<u8>>) -> Seq<Option<u8>> { old_p.subrange(0, old_p.len() - new_p.len()) }
 pub open spec fn no_fault(s: Seq<Option<u8>>) -> bool { forall|i: int| 0 <= i < s.len() ==> (#[trigger] s[i]) is Some }
+// some read among these pending stream elements fails (opaque: only the few lemmas about it look inside)
+#[verifier::opaque]
+pub open spec fn has_fault(s: Seq<Option<u8>>) -> bool { !no_fault(s) }
 pub open spec fn advance(old_p: Seq<Option<u8>>, new_p: Seq<Option<u8>>) -> bool { suffix_of(new_p, old_p) && no_fault(consumed(old_p, new_p)) }
